@@ -66,6 +66,8 @@ func genLayCase(r *rng.R, id int, base string) *layCase {
 		lc.Existing[p] = filepath.Base(p)
 	}
 	n := 1 + r.Intn(3)
+	// invocation
+	inv := r.Intn(5)
 	// every 10th case pins `output:file @cwd/…` together with a relative -cwd given from the parent directory (and a
 	// converter in a sub-directory)
 	pinCwd := id%10 == 7
@@ -74,6 +76,12 @@ func genLayCase(r *rng.R, id int, base string) *layCase {
 	pinShared := id%10 == 3
 	if pinShared {
 		n = 2
+	}
+	// every 10th case pins an output directory that already holds a hand-written package with its own name which uses
+	// the generated code (so it does not type-check during the run) and is not selected by the patterns
+	pinBrokenExisting := id%10 == 5
+	if pinBrokenExisting {
+		inv = 1
 	}
 	// a GLOBAL relative output:file (-g): resolved per converter against the directory of ITS declaring file
 	if r.Chance(20) && !pinCwd && !pinShared {
@@ -95,6 +103,10 @@ func genLayCase(r *rng.R, id int, base string) *layCase {
 		}
 		if pinCwd && i == 0 {
 			kk = 6
+		}
+		if pinBrokenExisting && i == 0 {
+			kk = 3
+			cv.Vars = false
 		}
 		if pinShared {
 			kk, j = 4, 0
@@ -143,10 +155,19 @@ func genLayCase(r *rng.R, id int, base string) *layCase {
 		case 2:
 			cv.Lines = append(cv.Lines, "output:package :nm")
 		}
-		if !pinShared && (r.Chance(30) || (len(lc.Global) > 0 && r.Chance(70))) && targetDir != "" && lc.Existing[targetDir] == "" && !strings.HasPrefix(targetDir, "..") {
+		if !pinShared && (r.Chance(30) || (len(lc.Global) > 0 && r.Chance(70)) || (pinBrokenExisting && i == 0)) && targetDir != "" && lc.Existing[targetDir] == "" && !strings.HasPrefix(targetDir, "..") {
 			name := rng.Pick(r, []string{"realname", "other", filepath.Base(targetDir)})
+			if pinBrokenExisting && i == 0 {
+				name = "realname"
+			}
 			lc.Tree[targetDir+"/existing.go"] = "package " + name + "\n"
 			lc.Existing[targetDir] = name
+			// hand-written code next to the output that USES generated code does not type-check while goverter runs (the
+			// generated file is excluded by its build constraint): the package's name must be taken all the same.
+			// Only when the patterns do not select that directory (a selected package that does not compile ends the run).
+			if inv == 1 && !pinCwd && (r.Chance(60) || pinBrokenExisting) {
+				lc.Tree[targetDir+"/existing.go"] += "\nvar Default = &NotYetGenerated{}\n"
+			}
 		}
 		lc.Convs = append(lc.Convs, cv)
 	}
@@ -175,8 +196,6 @@ func genLayCase(r *rng.R, id int, base string) *layCase {
 		}
 		lc.Tree[f] = b.String()
 	}
-	// invocation
-	inv := r.Intn(5)
 	if pinCwd {
 		inv = 3
 	}
